@@ -108,8 +108,8 @@ class Wire:
                 a = self.prog.adt(adt, self.crate)
             except KeyError:
                 continue
-            if a["kind"] == "Enum":
-                out[i] = adt
+            # enums are shape roots themselves; structs are kept so that enum-typed *fields* (`self.schema`) can be fixed
+            out[i] = adt
         return out
 
     def vpes(self, body):
@@ -477,12 +477,24 @@ class Wire:
                         items.setdefault(bi, []).append(("alts", alts_))
                 constructs |= set((a_, v_, o_ and okf) for a_, v_, o_ in sub["constructs"])
                 continue
+            # a helper generic over the array length (`write_array<const N>(bytes: [u8; N])`): the call site knows N
+            arr = [re.search(r"\[u8; (\d+)\]", ty) for ty in t.get("argtys", [])]
+            arr = [m_.group(1) for m_ in arr if m_]
+            fixn = arr[0] if len(arr) == 1 else None
+
+            def fixlen(k_):
+                return ("RAW:" + fixn + k_[len("RAW:VAR"):]) if fixn and k_.startswith("RAW:VAR") else k_
             for x in sub["tokens"]:
-                toks.append(Tok(x.kind, x.loop + ld, x.ok and okf, x.loc, x.via, bi))
+                toks.append(Tok(fixlen(x.kind), x.loop + ld, x.ok and okf, x.loc, x.via, bi))
             if sub["paths"] is None:
                 items.setdefault(bi, []).append(("unknown", None))
+            elif not sub["paths"] and cal.ret.startswith("std::result::Result"):
+                # the callee cannot succeed under these shapes: no success path of the caller continues through this call
+                # (a caller that handles the Err itself assigns the result to a local and branches; those are rare and are
+                # treated as dead too, which only makes the summary smaller)
+                items.setdefault(bi, []).append(("dead", None))
             elif sub["paths"] and sub["paths"] != {()}:
-                items.setdefault(bi, []).append(("alts", frozenset(tuple(stars(y, ld) for y in p_) for p_ in sub["paths"])))
+                items.setdefault(bi, []).append(("alts", frozenset(tuple(stars(fixlen(y), ld) for y in p_) for p_ in sub["paths"])))
             constructs |= set((a_, v_, o_ and okf) for a_, v_, o_ in sub["constructs"])
         ex = {"returns": bool(rets), "can_ok": bool(ok_blocks), "own_err": False, "propagates": False}
         for bi in region:
@@ -524,6 +536,8 @@ class Wire:
                         seqs = [s_ + (val,) for s_ in seqs]
                     elif kind == "alts":
                         seqs = [s_ + a_ for s_ in seqs for a_ in val]
+                    elif kind == "dead":
+                        seqs = []
                     else:
                         return None
                     if len(seqs) > 4000:
